@@ -46,7 +46,7 @@ MANIFEST = {
             "second time in fresh interpreters under other time zones, another hash seed, reverse order and other public "
             "argument forms, the 2.0 grammar on the same texts), and by a "
             "source-text translator (tr_visitor: child indices per visit method, instantiated classes, variant sites, __str__ "
-            "templates, escape / quote_if_needed / make_constant) whose facts Props/C10Src.v equates with the tables the model "
+            "templates, escape / quote_if_needed / make_constant / make_object_path) whose facts Props/C10Src.v equates with the tables the model "
             "transcribes, including that the variant record the source flags denote is `repaired`.",
     "design_ref": "DESIGN.md 6/C10, Appendix A.6",
     "note": "Trusted: Coq kernel + vm_compute; the hand-written model (compared with the implementation on every run, parse "
@@ -55,7 +55,10 @@ MANIFEST = {
             "only checked at run time on the generated cases; the reading of 'meaning' in harness/impl/c10_impl.py; that a "
             "Python float holds a decimal of at most 15 significant digits in the normal range exactly (DBL_DIG; the `fshort` "
             "hypothesis of sem and aprint is this bound, the generator stays inside it).  The installed 2.0 grammar (= 2.1 without "
-            "EXISTS) is run through the same model lines and oracle.  sv_lit falls back to CInt 0 on a token the visitor "
+            "EXISTS) is run through the same model lines and oracle.  The theorems speak of objects of the object model; how a "
+            "string-encoded path handed to the classes is cut into steps (make_object_path / create_ObjectPathComponent, both "
+            "transcribed and source-tied) is compared at run time only -- known finding C10-text-path-separator-in-quoted-key "
+            "lives there.  sv_lit falls back to CInt 0 on a token the visitor "
             "rejects; unreachable under wf and sem (Proofs/PatternLit.v visit_lit: the visitor returns exactly sv_lit t there).",
     "technique": "Coq proof over a hand-written executable model + correspondence run against the real parser and visitor",
 }
@@ -264,6 +267,10 @@ def compare_prog(c, r, line, mode=Full):
         d.append(("str()", r.get("str"), text))
     if not eq(m_ast, r.get("m_ast")):
         d.append(("meaning of the object", r.get("m_ast"), m_ast))
+    if G.SEP_FINDING in G.prog_features(c["spec"]):
+        # a quoted key torn apart at a separator inside its quotes (known finding): the printed text is not the text of
+        # any object; object and str() are compared, what the parser makes of the debris is not
+        return d
     if c.get("wg"):
         if shape == "none":
             d.append(("unvisit", "well grouped by construction", "none"))
